@@ -145,7 +145,7 @@ def render_state(gw: Gateway) -> str:
         # (enc / num render whatever the real objects hold - None, a float, a huge int - as tokens the model never prints)
         nodes.append(f"{num(k)}:{num(n.node_type)}:{enc(n.protocol_version)}:{enc(n.sketch_name)}:{enc(n.sketch_version)}:"
                      f"{num(n.battery_level)}:{num(n.heartbeat)}:{b(n.reboot)}:{b(n.sleeping)}:[{';'.join(children)}]")
-    buf = gw._message_buffer
+    buf = lib.sleep_buffer(gw)
     pv = "pv=none" if gw.protocol_version is None else "pv=" + enc(gw.protocol_version)
     ib = " ".join(f"{k[0]}.{k[1]}.{k[2]}" for k in buf.internal_messages)
     sb = " ".join(f"{k[0]}.{k[1]}.{k[2]}={enc(m.payload)}" for k, m in buf.set_messages.items())
@@ -220,8 +220,8 @@ async def _run_impl(h: Hist):
     objs: dict = {}              # the caller's Message objects by handle
     obs = [{"out": "init", "writes": [], "state": render_state(gw), "nodes": snapshot_nodes(gw),
             "pv": gw.protocol_version, "proto": gw.protocol.VERSION,
-            "sbuf": [(k, m.payload) for k, m in gw._message_buffer.set_messages.items()],
-            "ibuf": list(gw._message_buffer.internal_messages)}]
+            "sbuf": [(k, m.payload) for k, m in lib.sleep_buffer(gw).set_messages.items()],
+            "ibuf": list(lib.sleep_buffer(gw).internal_messages)}]
     for op in h.ops:
         tr.attempts = []
         held = None
@@ -271,8 +271,8 @@ async def _run_impl(h: Hist):
             held = (held, held and not held_before)
         obs.append({"out": out, "held": held, "writes": list(tr.attempts), "state": render_state(gw), "nodes": snapshot_nodes(gw),
                     "pv": gw.protocol_version, "proto": gw.protocol.VERSION,
-                    "sbuf": [(k, m.payload) for k, m in gw._message_buffer.set_messages.items()],
-                    "ibuf": list(gw._message_buffer.internal_messages)})
+                    "sbuf": [(k, m.payload) for k, m in lib.sleep_buffer(gw).set_messages.items()],
+                    "ibuf": list(lib.sleep_buffer(gw).internal_messages)})
     if listener is not None:
         await listener.aclose()
     return obs
